@@ -145,6 +145,19 @@ def binop(it, op, a, b, node):
     a0, b0 = a, b
     a, b = strval(a), strval(b)
     if isinstance(a, Unknown) or isinstance(b, Unknown):
+        from .values import UnknownInt
+
+        def intlike(x):
+            return isinstance(x, UnknownInt) or (as_intset(x) is not None and not isinstance(x, bool))
+
+        if intlike(a) and intlike(b) and op in ("Add", "Sub", "Mult", "Mod", "FloorDiv"):
+            if op in ("Mod", "FloorDiv"):
+                sb_ = as_intset(b) if not isinstance(b, Unknown) else None
+                if sb_ is None or (bounds(sb_)[0] <= 0 <= bounds(sb_)[1]):
+                    it.may_raise("ZeroDivisionError", node, "integer modulo by zero")
+                if op == "Mod" and sb_ is not None and bounds(sb_)[0] > 0:
+                    return mk_int(range(0, bounds(sb_)[1])) if bounds(sb_)[1] <= 64 else Interval(0, bounds(sb_)[1] - 1)
+            return UnknownInt("arith")
         return Unknown("arith")
     # string concatenation / repetition
     if op == "Add" and (is_strlike(a) or is_strlike(b)):
@@ -710,7 +723,7 @@ def slice_value(it, base, lo, hi, step, node):
 
 def subscript(it, base, idx, node):
     base0 = base
-    base = strval(base)
+    base = tupval(it, strval(base))
     idx = strval(idx) if isinstance(idx, Obj) else idx
     if isinstance(base, Unknown):
         return Unknown("subscript")
@@ -835,7 +848,7 @@ def it_symbolic_key(it, table, key, node):
 
 
 def unpack(it, v, n, node):
-    v = strval(v)
+    v = tupval(it, strval(v))
     if isinstance(v, (list, tuple)):
         if len(v) != n:
             it.may_raise("ValueError", node, f"unpack: expected {n} values, got {len(v)}", certain=True, witness=len(v))
@@ -850,7 +863,7 @@ def unpack(it, v, n, node):
 
 
 def iterate(it, v, node):
-    v = strval(v)
+    v = tupval(it, strval(v))
     if isinstance(v, (list, tuple)):
         return list(v)
     if isinstance(v, str):
@@ -917,6 +930,50 @@ class ZipVal:
 
 # ------------------------------------------------------------------------------------------------
 # classes: dataclasses, enums, super
+
+def namedtuple_fields(it, cls):
+    """Field names of a class-syntax typing.NamedTuple (annotated names of the class body, in order), else None."""
+    prog = it.program
+    if not any(e.split(".")[-1] == "NamedTuple" for e in cls.ext_bases(prog)):
+        return None
+    order = []
+    for c in cls.mro(prog):
+        if any(isinstance(b, str) and b.split(".")[-1] == "NamedTuple" for b in c.resolve_bases(prog)):
+            for st in c.node.body:
+                if isinstance(st, ast.AnnAssign) and isinstance(st.target, ast.Name):
+                    order.append(st.target.id)
+            break
+    return order
+
+
+def make_namedtuple(it, cls, args, kwargs, node):
+    order = namedtuple_fields(it, cls)
+    obj = Obj(cls)
+    if len(args) > len(order):
+        it.may_raise("TypeError", node, f"{cls.short}() takes {len(order)} positional arguments", certain=True)
+    vals = dict(zip(order, args))
+    for k, v in kwargs.items():
+        if k not in order or k in vals:
+            it.may_raise("TypeError", node, f"{cls.short}() bad keyword {k!r}", certain=True)
+        vals[k] = v
+    for nm in order:
+        if nm not in vals:
+            r = cls.lookup(it.program, nm)
+            if r is None or r[1] != "attr":
+                it.may_raise("TypeError", node, f"{cls.short}() missing argument {nm!r}", certain=True)
+            vals[nm] = it.class_attr(r[0], nm)
+        obj.attrs[nm] = vals[nm]
+    return obj
+
+
+def tupval(it, v):
+    """The tuple a NamedTuple instance is; other values unchanged."""
+    if isinstance(v, Obj) and v.strval is None:
+        order = namedtuple_fields(it, v.cls)
+        if order is not None:
+            return tuple(v.attrs[f] for f in order)
+    return v
+
 
 def is_dataclass(cls):
     return any((dotted(d) or dotted(getattr(d, "func", None)) or "").split(".")[-1] == "dataclass" for d in cls.decorators)
